@@ -69,10 +69,10 @@ Theorem C05_steering_V_not_null : forall sec ps,
   p_null ps' = p_null ps /\ p_las ps' = p_las ps /\ p_data ps' = p_data ps.
 Proof. exact steering_V_not_null. Qed.
 
-Theorem C05_route_custom_frame : forall title letter sec l,
+Theorem C05_route_custom_frame : forall v3 title letter sec l,
   letter <> 67 -> letter <> 80 -> letter <> 86 -> letter <> 87 ->
   contains (s2l "~Log_Definition") title = false -> contains (s2l "~Log_Parameter") title = false ->
-  let l' := route title letter sec l in
+  let l' := route v3 title letter sec l in
   l_version l' = l_version l /\ l_well l' = l_well l /\ l_curves l' = l_curves l /\
   l_params l' = l_params l /\ l_other l' = l_other l.
 Proof. exact route_custom_keeps_standard. Qed.
@@ -112,7 +112,7 @@ Theorem C05_section_type_current : forall title,
 Proof. exact section_type_pin. Qed.
 Theorem C05_route_current : forall title sec l version_is_3,
   startswith [ch_tilde] title = true ->
-  option_map (fun letter => route title letter sec l) (second_upper title)
+  option_map (fun letter => route version_is_3 title letter sec l) (second_upper title)
   = option_map (fun key => store_section key sec l) (py_route_key title version_is_3 false).
 Proof. exact route_pin. Qed.
 Print Assumptions C05_section_type_current.
